@@ -16,16 +16,25 @@ ASSUMPTIONS = [
     "fewer than 2^31 allocations / designations (the C++ counters are int; the model uses unbounded naturals)",
     "failNthAllocAt is called with a non-NULL file (a NULL file makes the node a global-index designation)",
     "LP64 (size_t is 64 bit) for the calloc overflow test",
-    "which calls consume a countdown tick: every cpputest_malloc/strdup/strndup and every calloc whose product does not overflow",
+    "which calls consume a countdown tick and count in malloc_count: every cpputest_malloc/strdup/strndup and every calloc whose "
+    "product does not overflow, failing ones included; cpputest_realloc and cpputest_free never (proved on the model, judged by the oracle)",
+    "cpputest_realloc(NULL, n) while the null allocator is current dereferences a NULL bookkeeping node inside the leak detector "
+    "(confirmed crash, outside this property's statement, not driven by the harness); realloc/free of a tracked block in that state "
+    "are refused with the allocator-mismatch failure (observed and modelled)",
 ]
-RULE = ("mode fa: workloads of 1-60 allocations over 1-4 locations (two pool files have equal content at different "
-        "addresses) and the four allocation families, 0-6 designations of both kinds interleaved with the allocations "
+RULE = ("mode fa: workloads of 1-60 allocations over 1-4 locations (pool: a.c twice at different addresses, b.c, dir/a.c, "
+        "other/a.c, an own copy of the overloads' \"<unknown>\" (line 0) and of the harness' __FILE__) and ten ways to "
+        "allocate with the allocator as the CURRENT malloc/new/new[] allocator (alloc_memory, cpputest_malloc_location, operator "
+        "new/new[] with location, plain new / new[], nothrow new / new[], the malloc and new MACROS), a stream that designates "
+        "one location and allocates at its look-alikes, 0-6 designations of both kinds interleaved with the allocations "
         "(duplicates, several at one location, zero/negative/too-late numbers), checks and clears interleaved; plus, for "
         "sampled workloads, every allocation point in turn as the single designated one, by global index and by "
-        "location x local index; mode c: countdown -3..12 followed by mixed malloc/strdup/strndup/calloc calls, "
-        "set/unset out-of-memory interleaved. non-trivial = at least one failing allocation or failing check")
+        "location x local index; mode c: countdown -3..12 followed by mixed malloc/strdup/strndup/calloc calls, realloc/free "
+        "(outside the countdown; malloc_count judged after every call), set/unset out-of-memory interleaved. non-trivial = at least one failing allocation or failing check")
 
-FAMS = ["d", "d", "d", "m", "n", "a"]
+FAMS = ["d", "d", "d", "m", "n", "a"]          # explicit location: alloc_memory, malloc_location, operator new / new[] (file, line)
+PLAIN = ["p", "q", "t", "u"]                    # plain / nothrow new and new[]: the overloads report "<unknown>":0
+
 LINES = [10, 10, 11, 20, 4711]
 
 
@@ -33,14 +42,42 @@ def pick_locs(rng):
     k = rng.randint(1, 4)
     locs = []
     while len(locs) < k:
-        fi = rng.choice([0, 1, 2, 3, 0, 2])       # 0 and 2 have the same content
+        fi = rng.choice([0, 1, 2, 3, 4, 0, 2, 5, 6])     # 0 and 2 have the same content; 3 and 4 differ from it by a directory
         ln = rng.choice(LINES)
+        if fi == 5:
+            ln = 0                                     # "<unknown>" always comes with line 0
+        if fi == 6:
+            ln = rng.choice([0, 1])                    # this source file: 0 = the malloc-macro line, 1 = the new-macro line
         locs.append((fi, ln))
     return locs
 
 
 def content(fi):
-    return {0: "a.c", 1: "b.c", 2: "a.c", 3: "dir/a.c"}[fi]
+    return {0: "a.c", 1: "b.c", 2: "a.c", 3: "dir/a.c", 4: "other/a.c", 5: "<unknown>", 6: "<harness>"}[fi]
+
+
+def fam_for(rng, loc):
+    """a family that reports the allocation at this location"""
+    fi, ln = loc
+    if fi == 5:
+        return rng.choice(PLAIN + PLAIN + FAMS)        # the overloads' own "<unknown>", or our copy of it passed explicitly
+    if fi == 6:
+        return rng.choice(["M" if ln % 2 == 0 else "W"] * 2 + FAMS)
+    return rng.choice(FAMS)
+
+
+def eff(loc, fam):
+    """the location the allocator sees (content, line key)"""
+    fi, ln = loc
+    if fam in PLAIN or fi == 5:
+        return ("<unknown>", 0)
+    if fam == "M":
+        return ("<harness>", 0)
+    if fam == "W":
+        return ("<harness>", 1)
+    if fi == 6:
+        return ("<harness>", ln % 2)
+    return (content(fi), ln)
 
 
 def gen_fa(rng, nalloc, malformed=False):
@@ -87,7 +124,7 @@ def gen_fa(rng, nalloc, malformed=False):
             ops.append("clear")
             done = 0
         fi, ln = rng.choice(locs)
-        ops.append("alloc %d %d %d %s" % (rng.choice([1, 8, 24, 100]), fi, ln, rng.choice(FAMS)))
+        ops.append("alloc %d %d %d %s" % (rng.choice([1, 8, 24, 100]), fi, ln, fam_for(rng, (fi, ln))))
         done += 1
     if rng.random() < 0.85:
         ops.append("check")
@@ -99,7 +136,7 @@ def gen_fa(rng, nalloc, malformed=False):
                 ops.append("failnum %d" % rng.randint(1, 3))
             for _ in range(rng.randint(1, 4)):
                 fi, ln = rng.choice(locs)
-                ops.append("alloc 8 %d %d %s" % (fi, ln, rng.choice(FAMS)))
+                ops.append("alloc 8 %d %d %s" % (fi, ln, fam_for(rng, (fi, ln))))
             ops.append("check")
     if malformed:
         junk = ["cd 3", "cmalloc 8", "frob", "failat 1", "alloc 8 0 10", "mode c", "failnum", "oom"]
@@ -110,14 +147,18 @@ def gen_fa(rng, nalloc, malformed=False):
 
 def workload(rng, nalloc):
     locs = pick_locs(rng)
-    return [(rng.choice(locs), rng.choice(FAMS)) for _ in range(nalloc)]
+    out = []
+    for _ in range(nalloc):
+        loc = rng.choice(locs)
+        out.append((loc, fam_for(rng, loc)))
+    return out
 
 
 def single_point_cases(rng, wl):
     """every allocation point of the workload in turn as the single designated one"""
     out = []
     for k in range(len(wl)):
-        (fi, ln), _ = wl[k]
+        (fi, ln), famk = wl[k]
         # by global index, designated up front
         ops = ["mode fa", "failnum %d" % (k + 1)]
         ops += ["alloc 8 %d %d %s" % (l[0], l[1], fam) for (l, fam) in wl]
@@ -125,11 +166,18 @@ def single_point_cases(rng, wl):
         out.append(ops)
         # by location x local index, designation made after `start` allocations
         start = rng.randint(0, k)
-        local = sum(1 for (l, _) in wl[start:k + 1] if (content(l[0]), l[1]) == (content(fi), ln))
+        local = sum(1 for (l, f) in wl[start:k + 1] if eff(l, f) == eff((fi, ln), famk))
         ops = ["mode fa"]
         for i, (l, fam) in enumerate(wl):
             if i == start:
-                ops.append("failat %d %d %d" % (local, fi, ln))
+                dfi, dln = fi, ln
+                if famk in PLAIN:
+                    dfi, dln = 5, 0
+                elif famk in ("M", "W"):
+                    dfi, dln = 6, (0 if famk == "M" else 1)
+                elif fi in (0, 2) and rng.random() < 0.5:
+                    dfi = 2 - fi                      # designate through the OTHER pointer with the same content
+                ops.append("failat %d %d %d" % (local, dfi, dln))
             ops.append("alloc 8 %d %d %s" % (l[0], l[1], fam))
         ops.append("check")
         out.append(ops)
@@ -139,10 +187,36 @@ def single_point_cases(rng, wl):
     return out
 
 
+def gen_locations(rng):
+    kind = rng.choice(["samecontent", "directory", "unknown", "macro"])
+    ops = ["mode fa"]
+    if kind == "samecontent":
+        des, allocs = (0, 10), [((2, 10), None), ((0, 10), None), ((1, 10), None), ((2, 11), None)]
+    elif kind == "directory":
+        des, allocs = (rng.choice([0, 3, 4]), 10), [((0, 10), None), ((3, 10), None), ((4, 10), None), ((2, 10), None)]
+    elif kind == "unknown":
+        des, allocs = (5, 0), [((5, 0), f) for f in PLAIN + ["n", "d"]] + [((0, 10), None)]
+    else:
+        k = rng.choice([0, 1])
+        des, allocs = (6, k), [((6, 0), "M"), ((6, 1), "W"), ((6, k), "m"), ((0, 10), None), ((5, 0), "p")]
+    n = rng.randint(1, 3)
+    ops.append("failat %d %d %d" % (n, des[0], des[1]))
+    if rng.random() < 0.3:
+        ops.append("failat %d %d %d" % (rng.randint(1, 3), des[0], des[1]))
+    for _ in range(rng.randint(2, 9)):
+        loc, fam = rng.choice(allocs)
+        ops.append("alloc 8 %d %d %s" % (loc[0], loc[1], fam or rng.choice(FAMS)))
+    ops.append("check")
+    return ops
+
+
 STRS = ["", "61", "68656c6c6f", "6162636465666768696a6b6c6d6e6f707172737475767778797a", "ff8001"]
 
 
 def c_call(rng):
+    if rng.random() < 0.15:
+        # outside the countdown: never a tick, never counted
+        return rng.choice(["crealloc %d %d" % (rng.randrange(8), rng.choice([1, 16, 200])), "cfree %d 0" % rng.randrange(8)])
     x = rng.random()
     if x < 0.35:
         return "cmalloc %d" % rng.choice([1, 7, 64, 1000])
@@ -195,7 +269,11 @@ def generate(rng, tier):
         wl = workload(rng, rng.randint(1, 14) if quick else rng.randint(1, 60))
         for ops in single_point_cases(rng, wl):
             out.append(("point", ops))
-    for rep in range(8 if quick else 80):
+    # locations: the same name through another pointer, names that differ only by the directory, the overloads' own
+    # "<unknown>":0 and the macro locations, each as the only designated location of a small workload
+    for i in range(150 if quick else 1500):
+        out.append(("locations", gen_locations(rng)))
+    for rep in range(20 if quick else 100):
         for n_cd in range(-3, 13):
             out.append(("countdown", gen_c(rng, n_cd)))
     for i in range(n // 10):
@@ -235,6 +313,12 @@ def observe(r, rep):
             rep.count("branch.check_ok")
         elif l.startswith("freed ") and l != "freed -":
             rep.count("branch.clear_releases_pending")
+        elif l.startswith("> alloc "):
+            rep.count("family." + l.split()[-1])
+            if l.split()[2] in ("<unknown>", "<harness>"):
+                rep.count("branch.alloc_at_" + l.split()[2].strip("<>"))
+        elif l.startswith("failure "):
+            rep.count("branch.c.release_" + l.split()[1])
         elif l.startswith("ret zeros"):
             rep.count("branch.c.calloc_zeroed")
         elif l.startswith("ret ") and mode == "c":
@@ -252,7 +336,9 @@ LEVEL_TEXT = ("Machine-checked Lean 4 theorems over an executable model of Faila
               "tied to the code on every run by a differential harness (real allocator, all four allocation families, real "
               "C entry points, ASan/UBSan) and by shape checks + regenerated constants; the implementation's own observations "
               "are judged by an oracle that evaluates the theorem's predicate on the call history.")
-LEVEL_NOTE = ("Trusted: Lean kernel; the hand-written model (validated against the code by this run's correspondence); the "
+LEVEL_NOTE = ("Observed by the harness, not proved: plain new / new[] report \"<unknown>\":0 and throw std::bad_alloc, the nothrow "
+              "forms and the malloc macro return NULL, the macros report the source file and line of the statement. "
+              "Trusted: Lean kernel; the hand-written model (validated against the code by this run's correspondence); the "
               "shape-checking extractor. Observed only, not proved: that operator new turns a NULL from the allocator into "
               "std::bad_alloc and that the tracked malloc/new paths hand file and line through to alloc_memory unchanged "
               "(exercised by families m/n/a of the harness); byte content of strdup/strndup/calloc results (model + oracle "
